@@ -33,6 +33,7 @@ func clientAddr(k int) string { return fmt.Sprintf("10.%d.%d.%d:4%03d", k%5, (k/
 
 func TestC11Sequential(t *testing.T) {
 	sub := lab.Sub("reconfig-sequential", "rapid histories over the admin API handlers {add(name from {a, b, c, d, 'a ', 'b\\n', ' c'}, address valid/unparsable/empty, weight -2..6 or, one in eight, 100/256/257/999/5000), remove(name incl. absent), set_strategy(5 known + unknown/empty/wrong-case), "+
+		"every mutating request with its body spelled in one of several shapes (all fields as in the README; optional/empty fields left out, weight omitted = default 1; members reordered; {}; a document cut off half-way, which is refused and changes nothing: each request means what its own body says), "+
 		"eject, list, request, hold (request parked in a backend), release, eligibility burst, wait (virtual time passes: 1 ms .. 29 s, one probe interval)} under a drawn health-check section (active probes off/on with interval 2-600 s, timeout 1-10 s, 4 paths; passive checks off/on with threshold 1-5, window 1-60 s; "+
 		"every probe and every proxied answer is a 200, so only the history's own ejections make a backend unhealthy) against a reference model (multiset of name/address/effective weight/health + strategy name); "+
 		"duplicate add may answer 201 (listed twice) or 4xx (unchanged); after remove no entry of that name may be listed or served; failed operations change nothing; strategy switch keeps the listing identical; parked requests finish normally; "+
@@ -52,6 +53,7 @@ func TestC11Sequential(t *testing.T) {
 		var hist []string
 		var viol string
 		repeated, rmTraffic, switchEjected, waited := false, false, false, false
+		shapes := map[string]bool{} // body shapes of the admin requests other than the README's full one
 		fn := lab.NewFakeNet()
 		// Helios's active prober uses the default transport: scripted as well while the case runs
 		oldDefault := http.DefaultTransport
@@ -156,8 +158,52 @@ func TestC11Sequential(t *testing.T) {
 					}
 					seq++
 					dup := hasName(model, name)
-					code, body := s.add(name, addr, w)
-					hist = append(hist, fmt.Sprintf("add(%q,%q,%d)->%d", name, addr, w, code))
+					// how the body is spelled: the README's example carries all three fields, but a JSON client leaves out what it
+					// has nothing to say about (weight is optional, default 1; a name or address it does not have), may write the
+					// members in any order, and may be cut off half-way. What the request means is what THIS body says
+					fs := []field{{"name", name}, {"address", addr}, {"weight", w}}
+					shape, cut := bodyFull, 0
+					switch rapid.IntRange(0, 11).Draw(rt, "addbody") {
+					case 0, 1, 2: // whatever is empty / zero is left out; the weight in any case
+						shape = bodyOmit
+						fs = fs[:0]
+						if name != "" {
+							fs = append(fs, field{"name", name})
+						}
+						if addr != "" {
+							fs = append(fs, field{"address", addr})
+						}
+						if rapid.IntRange(0, 3).Draw(rt, "keepweight") == 0 && w != 0 {
+							fs = append(fs, field{"weight", w})
+						} else {
+							w = 0
+						}
+						if len(fs) == 0 {
+							shape = bodyEmpty
+						}
+					case 3:
+						shape = bodyReordered
+						o := rapid.SampledFrom([][3]int{{2, 0, 1}, {1, 0, 2}, {2, 1, 0}, {0, 2, 1}}).Draw(rt, "order")
+						fs = []field{fs[o[0]], fs[o[1]], fs[o[2]]}
+					case 4:
+						shape = bodyTruncated
+						cut = rapid.SampledFrom([]int{1, 2, -1}).Draw(rt, "cut")
+					}
+					if shape != bodyFull {
+						shapes[shape] = true
+					}
+					sent := spell(fs, cut)
+					code, body := s.addRaw(sent)
+					hist = append(hist, fmt.Sprintf("add %s->%d", sent, code))
+					if shape == bodyTruncated {
+						// no document, no operation: refused, nothing changes
+						if code < 400 || code >= 500 {
+							viol = fmt.Sprintf("add with a body that is not a JSON document (%s) answered %d %s", sent, code, body)
+						} else {
+							viol = checkList("after the refused add " + sent)
+						}
+						break
+					}
 					valid := name != "" && strings.HasPrefix(addr, "http://h") && !strings.Contains(addr, "%zz")
 					eff := w
 					if eff < 1 {
@@ -166,7 +212,7 @@ func TestC11Sequential(t *testing.T) {
 					switch {
 					case code == 201:
 						if !valid {
-							viol = fmt.Sprintf("add with name %q address %q was accepted (201)", name, addr)
+							viol = fmt.Sprintf("add with name %q address %q (body %s) was accepted (201)", name, addr, sent)
 							break
 						}
 						if dup {
@@ -191,6 +237,29 @@ func TestC11Sequential(t *testing.T) {
 					if rapid.IntRange(0, 9).Draw(rt, "initial") == 0 {
 						name = lab.BackendName(rapid.IntRange(0, n0-1).Draw(rt, "b"))
 					}
+					rshape := rapid.IntRange(0, 11).Draw(rt, "rmbody")
+					if rshape < 3 {
+						// a remove that names nothing ({} or "name":"") or whose body stops half-way through: whether Helios refuses
+						// it or takes it for the removal of a name nobody has, it removes nothing (no backend is named "")
+						sent := "{}"
+						switch rshape {
+						case 0:
+							shapes[bodyEmpty] = true
+						case 1:
+							sent = spell([]field{{"name", ""}}, 0)
+						case 2:
+							shapes[bodyTruncated] = true
+							sent = spell([]field{{"name", name}}, rapid.SampledFrom([]int{1, -1}).Draw(rt, "cut"))
+						}
+						code, body := s.callRaw("POST", "/v1/backends/remove", sent)
+						hist = append(hist, fmt.Sprintf("remove %s->%d", sent, code))
+						if code >= 500 || code < 200 || (rshape == 2 && code < 400) {
+							viol = fmt.Sprintf("remove with body %s answered %d %s", sent, code, body)
+							break
+						}
+						viol = checkList("after remove with body " + sent + " (names no backend)")
+						break
+					}
 					code, body := s.remove(name)
 					hist = append(hist, fmt.Sprintf("remove(%q)->%d", name, code))
 					if code != 200 {
@@ -209,8 +278,32 @@ func TestC11Sequential(t *testing.T) {
 					viol = checkList("after remove(" + name + ")")
 				case k < 46: // set_strategy
 					sname := rapid.SampledFrom(strategyChoices).Draw(rt, "newstrategy")
-					code, body := s.setStrategy(sname)
-					hist = append(hist, fmt.Sprintf("strategy(%q)->%d", sname, code))
+					var code int
+					var body string
+					truncated := false
+					switch sshape := rapid.IntRange(0, 11).Draw(rt, "strategybody"); {
+					case sshape == 0 || (sshape < 4 && sname == ""): // no strategy named: the field is left out
+						sname = ""
+						shapes[bodyEmpty] = true
+						code, body = s.callRaw("POST", "/v1/strategy", "{}")
+						hist = append(hist, fmt.Sprintf("strategy {}->%d", code))
+					case sshape == 1: // the body stops half-way through: no document, no switch
+						shapes[bodyTruncated], truncated = true, true
+						sent := spell([]field{{"strategy", sname}}, rapid.SampledFrom([]int{1, -1}).Draw(rt, "cut"))
+						code, body = s.callRaw("POST", "/v1/strategy", sent)
+						hist = append(hist, fmt.Sprintf("strategy %s->%d", sent, code))
+						if code < 400 || code >= 500 {
+							viol = fmt.Sprintf("strategy switch with a body that is not a JSON document (%s) answered %d %s", sent, code, body)
+						} else {
+							viol = checkList("after the refused strategy switch " + sent)
+						}
+					default:
+						code, body = s.setStrategy(sname)
+						hist = append(hist, fmt.Sprintf("strategy(%q)->%d", sname, code))
+					}
+					if truncated {
+						break
+					}
 					known := false
 					for _, x := range lab.Strategies {
 						if x == sname {
@@ -382,6 +475,11 @@ func TestC11Sequential(t *testing.T) {
 		}
 		if switchEjected {
 			labels = append(labels, "switch-with-ejected")
+		}
+		for _, sh := range []string{bodyOmit, bodyEmpty, bodyReordered, bodyTruncated} {
+			if shapes[sh] {
+				labels = append(labels, "admin-body-"+sh)
+			}
 		}
 		sub.Case(map[string]any{"strategy": strategy, "n0": n0, "health_checks": e, "history": hist, "dress": dress}, nt, append(labels, dress.Label())...)
 		if viol != "" {
